@@ -5,7 +5,7 @@ Gemini URLs according to the protocol specification.
 """
 
 from typing import NamedTuple
-from urllib.parse import urlparse, urlunparse
+from urllib.parse import urlsplit, urlunsplit
 
 from ..protocol.constants import DEFAULT_PORT, MAX_REQUEST_SIZE
 
@@ -56,8 +56,9 @@ def parse_url(url: str) -> ParsedURL:
     if not url:
         raise ValueError("URL cannot be empty")
 
-    # Parse the URL
-    parsed = urlparse(url)
+    # Parse the URL (urlsplit, not urlparse: ';' is an ordinary path character in
+    # RFC 3986, so ";params" must stay part of the path)
+    parsed = urlsplit(url)
 
     # Validate scheme
     if not parsed.scheme:
@@ -85,12 +86,11 @@ def parse_url(url: str) -> ParsedURL:
     path = parsed.path if parsed.path else "/"
 
     # Construct normalized URL
-    normalized = urlunparse(
+    normalized = urlunsplit(
         (
             "gemini",  # Always use 'gemini' scheme
             f"{parsed.hostname}:{port}" if port != DEFAULT_PORT else parsed.hostname,
             path,
-            parsed.params,
             parsed.query,
             parsed.fragment,
         )
